@@ -582,6 +582,11 @@ def init_dataclass(
                     key = transformer.to_str(key)
                 _data[key] = val
             data = _data
+        elif not all(isinstance(key, str) for key in data):
+            # cls.__init__(inst, **data) below would fail with a bare TypeError("keywords must be strings")
+            raise TypeError(
+                f"invalid input keys for {cls}: keys must be strings (or use Options(cast_keyword_str=True))"
+            )
     except Exception as e:
         raise exc.ParseError(type=cls, value=data, origin_exc=e) from e
 
